@@ -131,10 +131,42 @@ def generate(seed, tier):
             rinit.append({"id": f"{os.path.basename(rel)}-rinit-d{deg}", "text": text2, "ast": prog.to_json(), "cand": cand, "deg": deg, "k": None,
                           "inits": K.frac_enc(inits), "params": K.frac_enc(params), "N": 3,
                           "features": ["file:" + os.path.basename(rel), f"deg:{deg}", "random-initial-values"], "mode": "inv"})
+    # variants in which an effective variable is updated AFTER it is used (first body statement moved to the end) and starts
+    # from a value that is not its stationary mean: the effective part of the candidate's recurrence has a transient
+    late = []
+    from ..lang.ast import num as _num, rhs_vars as _rhs_vars
+    for fi, (rel, cand, degs) in enumerate(specs):
+        path = os.path.join(REPO, rel)
+        if not os.path.exists(path):
+            continue
+        try:
+            prog = parse_program(open(path).read())
+        except ParseError:
+            continue
+        body = list(prog.body)
+        if len(body) < 2 or body[0][0] != "assign" or len(body[0]) > 3:
+            continue
+        v = body[0][1]
+        if (cand and v in cand) or any(st[0] == "assign" and st[1] == v for st in body[1:]):
+            continue
+        cs = K.harness_seed(seed, ID + "-late", fi)
+        rng = random.Random(cs)
+        init = [st for st in prog.init if not (st[0] == "assign" and st[1] == v)]
+        init.append(("assign", v, ("poly", _num(rng.choice([0, 1, 2, 3])))))
+        prog2 = Program(prog.typedefs, init, prog.guard, body[1:] + [body[0]])
+        text2 = program_str(prog2)
+        pv = program_variables(prog2)
+        inits = {w: Fraction(rng.randint(-6, 6), rng.choice([1, 2, 3])) or Fraction(1, 2) for w in pv}
+        params = {s_: Fraction(rng.randint(1, 9), 10) for s_ in program_symbols(prog2)}
+        for deg in degs[:2]:
+            late.append({"id": f"{os.path.basename(rel)}-late-d{deg}", "text": text2, "ast": prog2.to_json(), "cand": cand, "deg": deg, "k": None,
+                         "inits": K.frac_enc(inits), "params": K.frac_enc(params), "N": 3,
+                         "features": ["file:" + os.path.basename(rel), f"deg:{deg}", "effective-variable-updated-after-use"], "mode": "inv"})
     rng0.shuffle(cases)
     rng0.shuffle(rinit)
+    rng0.shuffle(late)
     nr = 6 if tier == "quick" else 60
-    return rinit[:nr] + cases[: (26 if tier == "quick" else 400)]
+    return rinit[:nr] + late[:nr] + cases[: (26 if tier == "quick" else 400)]
 
 
 def worker_init(tier):
